@@ -3,6 +3,7 @@ package main
 // Loop cut points: write discovery, candidate invariants (Houdini), user invariants.
 
 import (
+	"os"
 	"fmt"
 	"go/types"
 	"regexp"
@@ -224,7 +225,7 @@ func (e *Engine) atLoopHeader(st *State, fr *Frame, b *ssa.BasicBlock) {
 		sort.Strings(hs)
 		for _, h := range hs {
 			h := h
-			if h == "*" || h == "$alloc" || strings.HasPrefix(h, "G!") || strings.HasPrefix(h, "L!") {
+			if h == "*" || h == "$alloc" || strings.HasPrefix(h, "G!") || (strings.HasPrefix(h, "L!") && !strings.HasPrefix(h, "L!alg!")) {
 				continue
 			}
 			cands = append(cands, cand{text: "frame of " + h, quant: true, mkSt: func(s *State) string { return e.frameFormula(s, h) }})
@@ -241,6 +242,21 @@ func (e *Engine) atLoopHeader(st *State, fr *Frame, b *ssa.BasicBlock) {
 			cands = append(cands, cand{text: "monitor invariant " + inv.Name, quant: true, mkSt: func(s *State) string {
 				env := e.monitorEnv(s, l.mon, l.base, l.stt)
 				return env.evalBool(inv.Expr)
+			}})
+		}
+	}
+	// stable clauses of held monitors, relative to the state in which the loop is entered (the relation is transitive)
+	entrySnap := snapshotHeaps(st)
+	for _, l := range st.locks {
+		if l.mon == nil {
+			continue
+		}
+		l := l
+		for _, c := range l.mon.Stable {
+			c := c
+			cands = append(cands, cand{text: "monitor stable " + c.Name, quant: true, mkSt: func(s *State) string {
+				env := e.stableEnv(s, l.mon, l.base, l.stt, entrySnap)
+				return env.evalBool(c.Expr)
 			}})
 		}
 	}
@@ -262,6 +278,8 @@ func (e *Engine) atLoopHeader(st *State, fr *Frame, b *ssa.BasicBlock) {
 		for i, c := range cands {
 			if !failed[i] {
 				keep = append(keep, c)
+			} else if os.Getenv("GOVC_HOUDINI") != "" {
+				fmt.Fprintf(os.Stderr, "HOUDINI %s loop b%d: not on entry: %s\n", fr.fn.Name(), b.Index, c.text)
 			}
 		}
 		cands = keep
@@ -290,6 +308,8 @@ func (e *Engine) atLoopHeader(st *State, fr *Frame, b *ssa.BasicBlock) {
 		for i, c := range cands {
 			if !failed[i] {
 				keep = append(keep, c)
+			} else if os.Getenv("GOVC_HOUDINI") != "" {
+				fmt.Fprintf(os.Stderr, "HOUDINI %s loop b%d round %d: not preserved: %s\n", fr.fn.Name(), b.Index, round, c.text)
 			}
 		}
 		cands = keep
